@@ -77,6 +77,10 @@ def descs(draw, odd_units=True, text_curves=True, nan=True):
         for cv in desc["curves"]:
             if cv[0].strip() and draw(st.integers(0, 3)) == 0:
                 cv[1] = draw(odd)
+    if draw(st.integers(0, 3)) == 0:
+        # an index with more digits than a coarse format prints: the header of the output must agree with its own data
+        start, step = draw(st.sampled_from([(1670.123456, 0.152412), (1.004, 1.0), (-12.3456789, 0.5000004), (100.0049, -0.25)]))
+        desc["curves"][0][4] = [repr(start + i * step) for i in range(nrows)]
     if draw(st.booleans()):
         # samples with more digits than any format prints: what is recovered then depends on the numeric format only
         for cv in desc["curves"][1:]:
@@ -91,7 +95,7 @@ def descs(draw, odd_units=True, text_curves=True, nan=True):
                     cv[4][i] = "nan"
     if text_curves and len(desc["curves"]) > 1 and draw(st.integers(0, 4)) == 0:
         cv = desc["curves"][-1]
-        cv[4] = [draw(st.sampled_from(["abc", "LIME", "x1", "N/A", "sand stone", "a b", "", "two  blanks", "PAD   ", "it's", 'q"uote', "5'6\""])) for _ in range(nrows)]
+        cv[4] = [draw(st.sampled_from(["abc", "LIME", "x1", "N/A", "sand stone", "a b", "", "two  blanks", "PAD   ", "it's", 'q"uote', "5'6\"", "SAND-SHALE", "LIME-STONE-DOLOMITE", "a\tb", "7-8", "2018-05-22", "1,2,3"])) for _ in range(nrows)]
         if len(cv) > 5:
             cv[5] = "s"
         else:
